@@ -88,6 +88,10 @@ def make_spec(conf, nticks, base_id, house="Hc", resume=False):
     if conf["sched"] == "restart" and not resume and nticks >= 10:
         h = nticks // 2
         ctl[h], ctl[h + 1], ctl[h + 2] = "STOP", None, "START"
+    elif conf["sched"] == "plain" and not resume and nticks >= 6 and (conf["keep"] + int(conf["flush"] * 10) + int(conf["size"])) % 2 == 0:
+        # a START sent to the running logger right after its first (a `bid start` of a running logger), before anything was
+        # flushed: one more logger run, the file just created keeps its one header
+        ctl[1] = "START"
     ids, ticks, rid = [], [], base_id
     for i in range(nticks):
         if ctl[i]:
